@@ -54,9 +54,47 @@ def evaluate(case):
     return Outcome(nt, sorted(info), f)
 
 
+def eval_reformat(case):
+    """the table is printed, re-formatted through the fmt setter / remove_columns (possibly printed in between) and
+    printed again: the last rendering is judged against the final format exactly like a fresh table"""
+    import ak.ppobj as P
+    a = case["a"]
+    f = []
+    info = set(["reformatted"])
+    try:
+        t = tables.build(P, a)
+        str(t.ch_text(no_color=not case["first_colored"]))
+        for st_ in case["steps"]:
+            if st_[0] == "fmt":
+                b = dict(a, cols=st_[1], limits=st_[2], limits_via="fmt", no_value_path=True)
+                fmt = tables.fmt_string(b) or ""
+                t.fmt = fmt
+                info.add("fmt_setter")
+            elif st_[0] == "remove":
+                t.remove_columns(list(st_[1]))
+                info.add("remove_columns")
+            else:
+                str(t.ch_text(no_color=not st_[1]))
+                info.add("printed_in_between")
+        text = str(t.ch_text(no_color=True))
+    except Exception as e:   # noqa
+        import traceback
+        tb = traceback.extract_tb(e.__traceback__)[-1]
+        return Outcome(True, sorted(info), [("reformatted_table_raises_%s_at_%s" % (type(e).__name__, tb.name),
+                                            f"{e}; steps={case['steps']!r} fmt_a={tables.fmt_string(a)!r}")])
+    final = dict(a, cols=case["final"]["cols"], limits=case["final"]["limits"], limits_via="fmt", skip=[])
+    ff, inf = tables.check_text(final, text)
+    f.extend((b + "_after_reformat", d + f"; steps={case['steps']!r} fmt_a={tables.fmt_string(a)!r}") for b, d in ff)
+    info |= inf
+    nt = bool(info & {"cell_truncated", "limits_applied", "width_le_2", "break_lines"})
+    return Outcome(nt, sorted(info), f)
+
+
 def parts(tier):
     k = 1 if tier == "quick" else 40
-    return [Part("tables", evaluate, strategy=tables.st_table_case, examples=6000 * k)]
+    return [Part("tables", evaluate, strategy=tables.st_table_case, examples=6000 * k),
+            Part("reformatted", eval_reformat, strategy=tables.st_reformat_case, examples=3000 * k,
+                 note="print, then fmt setter / remove_columns (with prints in between), judged against the final format")]
 
 
 TECHNIQUE = "property-based testing (Hypothesis): generated tables judged by an independent parser of the no-colour text (border-derived column offsets, per-cell padded/truncated value check, line-sequence model for limits and break lines)"
